@@ -19,7 +19,7 @@ RULE = (
     "candidate plates"
 )
 ASSUMPTIONS = ["batches are subsets of the unobserved plates of the screen", "scores are finite or -inf (no NaN)"]
-REQUIRED = {"batches_with_observed_plates": {"quick": 40, "thorough": 500}, "cli_selections_with_policy_and_empty_batch": {"quick": 15, "thorough": 100}, "dbal_end_to_end_runs_with_batch": {"quick": 5, "thorough": 60}, "dbal_scores_vs_reference": {"quick": 30, "thorough": 500}, "coverage_checks": {"quick": 800, "thorough": 10000}, "conditioning_checks": {"quick": 1500, "thorough": 20000}, "selections_checked": {"quick": 1800, "thorough": 25000}, "cli_runs": {"quick": 30, "thorough": 500}, "selections_none": {"quick": 20, "thorough": 400}}
+REQUIRED = {"combined_holders_saved_and_reloaded": {"quick": 200, "thorough": 2500}, "batches_with_observed_plates": {"quick": 40, "thorough": 500}, "cli_selections_with_policy_and_empty_batch": {"quick": 15, "thorough": 100}, "dbal_end_to_end_runs_with_batch": {"quick": 5, "thorough": 60}, "dbal_scores_vs_reference": {"quick": 30, "thorough": 500}, "coverage_checks": {"quick": 800, "thorough": 10000}, "conditioning_checks": {"quick": 1500, "thorough": 20000}, "selections_checked": {"quick": 1800, "thorough": 25000}, "cli_runs": {"quick": 30, "thorough": 500}, "selections_none": {"quick": 20, "thorough": 400}}
 N_SCREENS = {"quick": 960, "thorough": 12800}
 
 
@@ -230,6 +230,18 @@ def run_shard(rec, tier, seed, shard, nshards):
                 except Exception as e:
                     rec.violation("C06/combine/raises", "load/concat in order %r raised %r" % (order, e), w)
                     continue
+                if rng.random() < 0.4:
+                    # an intermediate result of a reduction: the combined holder is itself saved and loaded again
+                    try:
+                        f_mid = os.path.join(tmp, "sc_combined.h5")
+                        comb.save_h5(f_mid)
+                        back = ChunkedScoresHolder.load_h5(f_mid)
+                        rec.count("combined_holders_saved_and_reloaded")
+                        a_ = sorted((int(p), float(s)) for p, s in zip(back.plate_ids.tolist(), back.scores.tolist()))
+                        b_ = sorted((int(p), float(s)) for p, s in zip(comb.plate_ids.tolist(), comb.scores.tolist()))
+                        rec.check(a_ == b_, "C06/combine/contents-differ", lambda: "a combined holder holds %d scores, after save + load %d" % (len(b_), len(a_)), dict(w, order=order))
+                    except Exception as e:
+                        rec.violation("C06/combine/raises", "saving / loading a combined holder raised %r" % (e,), w)
                 got_scores = sorted((int(p), float(s)) for p, s in zip(comb.plate_ids[: len(cand)], comb.scores[: len(cand)]))
                 rec.check(len(comb.scores) == len(cand) and got_scores == sorted((p, table[p]) for p in cand), "C06/combine/contents-differ", lambda: "combined holder holds %r, expected the candidates' prescribed scores" % (list(zip(comb.plate_ids.tolist(), comb.scores.tolist()))[:12],), dict(w, order=order))
                 pol_kind = str(rng.choice(["none", "rec", "rec", "kper"])) if not per_sample else str(rng.choice(["none", "rec", "kper", "kper"]))
